@@ -271,6 +271,13 @@ func c10Reassemble(rec []byte) []c10Hello {
 		}
 		out = append(out, c10Hello{fmt.Sprintf("assembled: padded to %d byte record", total), build(append(append([]ext{}, list...), ext{21, make([]byte, pad)}))})
 	}
+	// the extension block ends with an extension that has an empty body (extended_master_secret,
+	// signed_certificate_timestamp, an empty session ticket), as OpenSSL / mbedTLS-style clients send it
+	for _, typ := range []uint16{23, 18, 35} {
+		out = append(out, c10Hello{fmt.Sprintf("assembled: last extension %d has an empty body", typ), build(append(append([]ext{}, list...), ext{typ, nil}))})
+		out = append(out, c10Hello{fmt.Sprintf("assembled: only sni and an empty extension %d", typ), build([]ext{sni, {typ, nil}})})
+		out = append(out, c10Hello{fmt.Sprintf("assembled: empty extension %d first", typ), build(append([]ext{{typ, nil}}, list...))})
+	}
 	// empty SNI extension body, empty host name
 	out = append(out, c10Hello{"assembled: sni with empty name list", build(append([]ext{{0, []byte{0, 0}}}, rest...))})
 	out = append(out, c10Hello{"assembled: sni with zero-length host name", build(append([]ext{{0, []byte{0, 3, 0, 0, 0}}}, rest...))})
